@@ -1292,12 +1292,116 @@ class SD:
                     lin_n = strip_sites(n_t)
                     if not (B0[0][loopvars[0]] == -1 and B0[0].get(lin_n, 0) == 1 and c0 == -1):
                         problems.append(f"needle index {show(ns[2])[:40]} does not enumerate the run's positions exactly once")
+        self._search_advances(rule, fi)
         if not problems and checked == 0:
             raise AnalysisError(f"{fi.qual}: the search helper has a shape the occurrence certificate does not recognise")
         run.ob(rule, f"{fi.qual}:reported-index-is-an-occurrence", not problems and checked > 0, loc(fi),
                "; ".join(dict.fromkeys(problems)) or
                f"every returned index r satisfies haystack[r+k] == needle[k] for all k (checked on {checked} returning path shapes as a linear identity)")
         return fi
+
+    def _search_advances(self, rule, fi):
+        """encoding must terminate: every `while` loop of the search helper moves its index forward by at least one
+        position per iteration.  Recognised steps: a positive literal, or `table.get(key, default)` with a default bound to
+        a length and a table built by `{key: V for i in range(R)}` whose smallest value (V is linear in i) is >= 1."""
+        import ast as _ast
+        run = self.run
+        fn = fi.node
+
+        def lin(node, env):
+            """node -> ({name: coeff}, const) or None"""
+            if isinstance(node, _ast.Constant) and isinstance(node.value, int):
+                return ({}, node.value)
+            if isinstance(node, _ast.Name):
+                if node.id in env:
+                    return env[node.id]
+                return ({node.id: 1}, 0)
+            if isinstance(node, _ast.UnaryOp) and isinstance(node.op, _ast.USub):
+                a = lin(node.operand, env)
+                return None if a is None else ({k: -v for k, v in a[0].items()}, -a[1])
+            if isinstance(node, _ast.BinOp) and isinstance(node.op, (_ast.Add, _ast.Sub)):
+                a, b = lin(node.left, env), lin(node.right, env)
+                if a is None or b is None:
+                    return None
+                sgn = 1 if isinstance(node.op, _ast.Add) else -1
+                d = dict(a[0])
+                for k, v in b[0].items():
+                    d[k] = d.get(k, 0) + sgn * v
+                return ({k: v for k, v in d.items() if v}, a[1] + sgn * b[1])
+            return None
+
+        lengths = set()   # names bound to len(..)
+        len_of = {}       # sequence name -> the name holding its length
+        tables = {}       # name -> DictComp
+        for st in _ast.walk(fn):
+            if isinstance(st, _ast.Assign) and len(st.targets) == 1 and isinstance(st.targets[0], _ast.Name):
+                if isinstance(st.value, _ast.Call) and isinstance(st.value.func, _ast.Name) and st.value.func.id == "len":
+                    lengths.add(st.targets[0].id)
+                    if len(st.value.args) == 1 and isinstance(st.value.args[0], _ast.Name):
+                        len_of[st.value.args[0].id] = st.targets[0].id
+                if isinstance(st.value, _ast.DictComp):
+                    tables[st.targets[0].id] = st.value
+        n_loops = 0
+        for loop in [x for x in _ast.walk(fn) if isinstance(x, _ast.While)]:
+            n_loops += 1
+            idx = loop.test.left.id if isinstance(loop.test, _ast.Compare) and isinstance(loop.test.left, _ast.Name) else None
+            steps = [x for x in _ast.walk(loop) if isinstance(x, _ast.AugAssign) and isinstance(x.op, _ast.Add) and isinstance(x.target, _ast.Name) and x.target.id == idx]
+            if idx is None or not steps:
+                raise AnalysisError(f"{fi.qual}: a while loop of the search helper has no recognisable index step")
+            why = None
+            for stp in steps:
+                v = stp.value
+                if isinstance(v, _ast.Constant) and isinstance(v.value, int):
+                    if v.value < 1:
+                        why = f"`{idx} += {v.value}` does not advance"
+                    continue
+                if isinstance(v, _ast.Call) and isinstance(v.func, _ast.Attribute) and v.func.attr == "get" and isinstance(v.func.value, _ast.Name) \
+                        and v.func.value.id in tables and len(v.args) == 2:
+                    dflt = v.args[1]
+                    if not ((isinstance(dflt, _ast.Name) and dflt.id in lengths) or (isinstance(dflt, _ast.Constant) and isinstance(dflt.value, int) and dflt.value >= 1)):
+                        why = f"the default step {_ast.unparse(dflt)} is not known to be >= 1"
+                        continue
+                    dc = tables[v.func.value.id]
+                    g = dc.generators[0]
+                    ivar, R = None, None
+                    if len(dc.generators) == 1 and not g.ifs and isinstance(g.iter, _ast.Call) and isinstance(g.iter.func, _ast.Name):
+                        if g.iter.func.id == "range" and len(g.iter.args) == 1 and isinstance(g.target, _ast.Name):
+                            ivar, R = g.target.id, lin(g.iter.args[0], {})
+                        elif g.iter.func.id == "enumerate" and len(g.iter.args) == 1 and isinstance(g.target, _ast.Tuple) \
+                                and len(g.target.elts) == 2 and isinstance(g.target.elts[0], _ast.Name):
+                            # for pos, elem in enumerate(seq) / enumerate(seq[:-k]): pos ranges over the length of the operand
+                            sq = g.iter.args[0]
+                            cut = 0
+                            if isinstance(sq, _ast.Subscript) and isinstance(sq.slice, _ast.Slice) and sq.slice.lower is None and sq.slice.step is None \
+                                    and isinstance(sq.slice.upper, _ast.UnaryOp) and isinstance(sq.slice.upper.op, _ast.USub) \
+                                    and isinstance(sq.slice.upper.operand, _ast.Constant) and isinstance(sq.slice.upper.operand.value, int):
+                                cut = sq.slice.upper.operand.value
+                                sq = sq.value
+                            if isinstance(sq, _ast.Name) and sq.id in len_of:
+                                ivar, R = g.target.elts[0].id, ({len_of[sq.id]: 1}, -cut)
+                    if ivar is None:
+                        raise AnalysisError(f"{fi.qual}: skip table of an unrecognised shape")
+                    V = lin(dc.value, {})
+                    if R is None or V is None:
+                        raise AnalysisError(f"{fi.qual}: skip table values are not linear")
+                    ci = V[0].get(ivar, 0)
+                    # smallest value of V over i in [0, R-1]
+                    at = ({}, 0) if ci >= 0 else ({k: v_ for k, v_ in R[0].items()}, R[1] - 1)
+                    mn = dict(V[0])
+                    mn.pop(ivar, None)
+                    for k, v_ in at[0].items():
+                        mn[k] = mn.get(k, 0) + ci * v_
+                    mn = ({k: v_ for k, v_ in mn.items() if v_}, V[1] + ci * at[1])
+                    ok_min = (not mn[0] and mn[1] >= 1) or (all(k in lengths and v_ > 0 for k, v_ in mn[0].items()) and mn[1] >= 1)
+                    if not ok_min:
+                        why = f"the smallest step in the skip table is {' + '.join([f'{v_}*{k}' for k, v_ in mn[0].items()] + [str(mn[1])])} (must be >= 1): the search loop stops advancing"
+                    continue
+                raise AnalysisError(f"{fi.qual}: index step {_ast.unparse(v)[:50]} of an unrecognised shape")
+            run.ob(rule, f"{fi.qual}:search-loop-advances", why is None, loc(fi, loop),
+                   "every iteration of the search loop moves the index forward by at least one position" if why is None else
+                   why + " - encoding a message whose option runs hit that case never returns")
+        if n_loops == 0:
+            run.ob(rule, f"{fi.qual}:search-loop-advances", True, loc(fi), "the search helper has no while loop (bounded for-loops only)", nontrivial=False)
 
     # ================================================================== pipeline
     def pipeline(self, rule):
